@@ -18,7 +18,26 @@ import (
 	"github.com/semihalev/sdns/server"
 )
 
+// exec runs rw/wg ops in process and forwards dedup/sys ops (real server
+// goroutines) to the child process, see child.go.
 func exec(op string) vlib.Res {
+	f := strings.Fields(op)
+	if len(f) < 2 {
+		return vlib.Res{Impl: "bad-op"}
+	}
+	switch f[0] {
+	case "rw", "wg":
+		return execLocal(op)
+	case "dedup", "sys":
+		if os.Getenv("C11_NOCHILD") != "" {
+			return execLocal(op)
+		}
+		return execInChild(op, f)
+	}
+	return vlib.Res{Impl: "bad-op"}
+}
+
+func execLocal(op string) vlib.Res {
 	f := strings.Fields(op)
 	if len(f) < 2 {
 		return vlib.Res{Impl: "bad-op"}
@@ -64,6 +83,10 @@ func facts() map[string]any {
 }
 
 func main() {
+	if len(os.Args) > 1 && os.Args[1] == "child" {
+		childMain()
+		return
+	}
 	if len(os.Args) > 1 && os.Args[1] == "try" {
 		vlib.Quiet()
 		for _, op := range os.Args[2:] {
@@ -71,9 +94,11 @@ func main() {
 			r := exec(op)
 			fmt.Printf("%s\n   impl=%s oracle=%s tags=%s (%.1fs)\n", op, r.Impl, r.Oracle, r.Tags, time.Since(t0).Seconds())
 		}
+		stopChild()
 		closeAll()
 		return
 	}
 	defer closeAll()
+	defer stopChild()
 	vlib.Main(&vlib.Driver{Facts: facts, Exec: exec, Gen: gen})
 }
